@@ -22,10 +22,10 @@ FACTOR_POOL = {
 INIT_POOL = {
     'factor_update_steps': [1, 2, 3, 10, 64],
     'inv_update_steps': [1, 4, 6, 10, 128],
-    'damping': [0.001, 0.003, 1.0, 0.5],
-    'factor_decay': [0.95, 0.5, 1.0, 0.1],
-    'kl_clip': [0.001, 0.01, 2.0],
-    'lr': [0.1, 0.0, 1.0, 0.05],
+    'damping': [0.001, 0.003, 1.0, 0.5, 1, 2],
+    'factor_decay': [0.95, 0.5, 1.0, 0.1, 1],
+    'kl_clip': [0.001, 0.01, 2.0, 1, 3],
+    'lr': [0.1, 0.0, 1.0, 0.05, 1, 0, 3],
 }
 EXP_CAPS = [0.95, 1.0, 0.5, 2.0, 0.999, 1e-3, 0.75, 1.5]
 
